@@ -189,11 +189,13 @@ def closeQ : List UInt8 → Option Nat
 
 /-- `L` lists the indices in order; the peek value of an entry is the distance to the next index, except
     that the last entry of an index buffer has peek 0 — which only happens at markup bytes `{ } [ ] : ,`
-    (a trailing non-markup index is carried into the next buffer) . -/
+    or when the following index is not at a markup byte (a single trailing non-markup index is carried
+    into the next buffer). -/
 structure PeekOK (msg : Bytes) (idx : List Nat) (L : List (Nat × Nat)) : Prop where
   fst : L.map Prod.fst = idx
-  peek : ∀ k (h : k < L.length), ((L[k]).2 = 0 ∧ isMarkup (msg.getD (L[k]).1 0) = true) ∨
-            (∃ h' : k + 1 < L.length, (L[k]).2 = (L[k+1]).1 - (L[k]).1)
+  peek : ∀ k (h : k + 1 < L.length),
+    (L[k]).2 = (L[k+1]).1 - (L[k]).1 ∨
+    ((L[k]).2 = 0 ∧ (isMarkup (msg.getD (L[k]).1 0) = true ∨ isMarkup (msg.getD (L[k+1]).1 0) = false))
 
 /-! ## Specification values as tape-level documents -/
 
